@@ -319,9 +319,28 @@ func genBattle(w *bufio.Writer, r *rand.Rand, n int, flags int64, maxW int, wrap
 			cyc = int64(1 + r.Intn(8))
 		}
 		nw := 1 + r.Intn(maxW)
+		// one battle in seven: a warrior that keeps splitting, under a process limit that is not a power of two, also
+		// one larger than the core, for long enough to fill the queue and keep it turning over at the limit
+		bomb := r.Intn(7) == 0
+		if bomb {
+			p = pick(r, []int64{17, 24, 33, 60, 65, 70, 100, 130})
+			cyc = 5*p + int64(r.Intn(60))
+		}
 		c := []int64{1, m, rl, wl, p, cyc, flags, cyc + 2, int64(nw)}
 		for i := 0; i < nw; i++ {
 			code, start := genWarrior(r, m, rl, wl)
+			if bomb && i == 0 {
+				// nop x lead / spl 0 / nop / nop / jmp 0: tasks at different addresses, so the order in the queue shows
+				code = nil
+				for j := r.Intn(4); j > 0; j-- {
+					code = append(code, []int64{16, 0, 0, 0, 0, 0})
+				}
+				code = append(code, []int64{15, 2, 0, 0, 0, 0}, []int64{16, 0, 0, 0, 0, 0}, []int64{16, 0, 0, 0, 0, 0}, []int64{11, 2, 0, 0, 0, 0})
+				if int64(len(code)) > m {
+					code = code[len(code)-int(m):]
+				}
+				start = 0
+			}
 			ln := int64(len(code))
 			var off int64
 			if wrap {
